@@ -89,6 +89,15 @@ pub struct User {
     pub address: Option<String>,
 }
 
+impl PartialEq for Version {
+    fn eq(&self, other: &Self) -> bool {
+        self.created == other.created
+            && self.message == other.message
+            && self.user == other.user
+            && self.state == other.state
+    }
+}
+
 impl Inventory {
     /// Creates a new inventory, this is intended for deserialization
     #[allow(clippy::too_many_arguments)]
@@ -143,6 +152,16 @@ impl Inventory {
         self.head = version_num;
 
         Ok(())
+    }
+
+    /// Returns true if this inventory continues the history recorded in `other`: every version of
+    /// `other` is present here, unchanged, and the version numbers are padded the same way.
+    pub fn continues_history_of(&self, other: &Inventory) -> bool {
+        self.head.width == other.head.width
+            && other
+                .versions
+                .iter()
+                .all(|(num, version)| self.versions.get(num) == Some(version))
     }
 
     /// Returns true if the HEAD version is equal to 1
